@@ -95,17 +95,55 @@ def judge(kind, m, gen_exc, g):
     return None
 
 
-def run_one(kind, chooser):
-    m = _install()
+def _generate(kind, m, chooser):
     _script.chooser = chooser
     gen = {"init": m.InitSequenceStart, "ping": m.PingSequenceStart, "account": m.AccountReplySequenceStart}[kind].generate
     try:
-        g, exc = gen(), None
+        return gen(), None
     except loader.HarnessError:
         raise
     except Exception as e:  # noqa: BLE001
-        g, exc = None, f"{type(e).__name__}: {e}"
-    return judge(kind, m, exc, g)
+        return None, f"{type(e).__name__}: {e}"
+
+
+def _bystanders(m, v):
+    """Other sequence starts with the same value, alive while the outcome is generated again: starts are values, not
+    shared state - generating one must neither hand out nor disturb another."""
+    out = []
+    if v >= 0:
+        s1 = (v + 13) // 7
+        out.append(("init", m.InitSequenceStart.from_init_values(min(s1, 252), v + 13 - min(s1, 252) * 7)))
+        out.append(("ping", m.PingSequenceStart.from_ping_values(v + 5, 5)))
+        out.append(("account", m.AccountReplySequenceStart.from_value(v)))
+        out.append(("zero", m.SequenceStart.zero()))
+    return [(k, o, (o.value, getattr(o, "seq1", None), getattr(o, "seq2", None))) for k, o in out]
+
+
+def run_one(kind, chooser):
+    m = _install()
+    g, exc = _generate(kind, m, chooser)
+    what = judge(kind, m, exc, g)
+    if what or g is None or not isinstance(g.value, int):
+        return what
+    # the same outcome once more while other starts of the same value are alive
+    first = (g.value, getattr(g, "seq1", None), getattr(g, "seq2", None))
+    try:
+        others = _bystanders(m, g.value)
+    except Exception as e:  # noqa: BLE001
+        return f"with a generated {kind} start of value {g.value} alive, building another start of that value raised {type(e).__name__}: {e}"
+    again = choices.Chooser(chooser.choices)
+    g2, exc2 = _generate(kind, m, again)
+    what = judge(kind, m, exc2, g2)
+    if what:
+        return "with other starts of the same value alive: " + what
+    if (g2.value, getattr(g2, "seq1", None), getattr(g2, "seq2", None)) != first:
+        return f"the same draws gave {first} alone and {(g2.value, getattr(g2, 'seq1', None), getattr(g2, 'seq2', None))} with other starts of the same value alive"
+    if any(g2 is o for _, o, _ in others) or g2 is g:
+        return f"{kind} generate() handed out an object that already existed (value {g2.value})"
+    for k, o, snap in others + [(kind, g, first)]:
+        if (o.value, getattr(o, "seq1", None), getattr(o, "seq2", None)) != snap:
+            return f"generating a {kind} start changed an existing {k} start from {snap} to {(o.value, getattr(o, 'seq1', None), getattr(o, 'seq2', None))}"
+    return None
 
 
 def _shard(shard):
@@ -167,13 +205,23 @@ def run(tier, seed):
         "rule": "every leaf of the choice tree of each generate(): each randrange(a, b) call is a choice point over all of "
         "range(a, b); a leaf is one complete sequence of draw outcomes (distinct by construction); each leaf is checked "
         "for: no exception, documented value range, components fit their wire fields, from-values constructor "
-        "reproduces value and components",
+        "reproduces value and components; then the same draws once more while starts of the same value from every class are alive (nothing handed out twice, nothing disturbed)",
         "samples": samples,
     }
+    from .. import kwforms
+
+    for w in kwforms.check("sequence"):
+        violations.append({"key": "keyword-form:" + w.split(":")[0][:60], "what": w, "case": {"kwforms": True}})
+    coverage["keyword_call_forms_checked"] = True
     return {"coverage": coverage, "violations": violations}
 
 
 def replay(case):
+    if isinstance(case, dict) and case.get("kwforms"):
+        from .. import kwforms
+
+        bad = kwforms.check("sequence")
+        return bad[0] if bad else None
     loader.install_shims()
     if case.get("roots"):
         # context-dependent outcome (the code under test remembers earlier draws): re-run the whole shard in order
